@@ -183,12 +183,12 @@ impl File {
 pub mod fs {
     use super::*;
     pub use super::fs_filetype::FileType;
-    pub use super::fs_more::{metadata, symlink_metadata, create_dir};
+    pub use super::fs_more::{metadata, symlink_metadata, create_dir, set_permissions};
     pub use super::{remove_file, create_dir_all, read_link, canonicalize, File, Permissions, OpenOptions};
     /// rename(2): the *entry* moves: every spelling of the old entry stops resolving, `b` now designates the object; inodes and contents untouched.
     /// (Two spellings of one entry necessarily reach the same inode.)
     #[verifier::external_body]
-    pub fn rename(a: &Path, b: Path, Tracked(w): Tracked<&mut World>) -> (r: std::result::Result<(), io::Error>)
+    pub fn rename<B: PathLike>(a: &Path, b: B, Tracked(w): Tracked<&mut World>) -> (r: std::result::Result<(), io::Error>)
         ensures final(w).files == old(w).files, final(w).cursor == old(w).cursor, final(w).eexist == old(w).eexist,
             final(w).errno == old(w).errno && final(w).eintr_left == old(w).eintr_left && final(w).tolerated == old(w).tolerated
                 && final(w).errors_sent == old(w).errors_sent && final(w).announced == old(w).announced && final(w).reported == old(w).reported,
@@ -198,10 +198,10 @@ pub mod fs {
                 Ok(_) => {
                     &&& final(w).faults == old(w).faults
                     &&& old(w).paths.contains_key(a.key())
-                    &&& final(w).paths.contains_key(b.key()) && final(w).paths[b.key()] == old(w).paths[a.key()]
-                    &&& (forall|k: PathKey| k != b.key() ==> (#[trigger] final(w).paths.contains_key(k) <==> (old(w).paths.contains_key(k) && old(w).paths[k].entry != old(w).paths[a.key()].entry)))
-                    &&& (forall|k: PathKey| k != b.key() && #[trigger] final(w).paths.contains_key(k) ==> final(w).paths[k] == old(w).paths[k])
-                    &&& final(w).trace == old(w).trace.push(Event::Rename(a.key(), b.key()))
+                    &&& final(w).paths.contains_key(b.pkey()) && final(w).paths[b.pkey()] == old(w).paths[a.key()]
+                    &&& (forall|k: PathKey| k != b.pkey() ==> (#[trigger] final(w).paths.contains_key(k) <==> (old(w).paths.contains_key(k) && old(w).paths[k].entry != old(w).paths[a.key()].entry)))
+                    &&& (forall|k: PathKey| k != b.pkey() && #[trigger] final(w).paths.contains_key(k) ==> final(w).paths[k] == old(w).paths[k])
+                    &&& final(w).trace == old(w).trace.push(Event::Rename(a.key(), b.pkey()))
                 },
                 Err(_) => final(w).faults == old(w).faults + 1 && final(w).paths == old(w).paths && final(w).trace == old(w).trace,
             },
